@@ -8,6 +8,12 @@ import vlib
 PROP = 'C15'
 HEADER = 'From VLib Require Import Akita.\nFrom VMem Require Import Rob.\nOpen Scope N_scope.\n'
 COQ_TARGETS = ['props/C15.vo']
+REQUIRED_THEOREMS = ['rob_in_order_exactly_once', 'rob_responses_follow_request_order', 'rob_response_payload',
+                     'rob_forward_faithful', 'rob_capacity', 'rob_flush_discards', 'rob_discard_step', 'rob_progress',
+                     'rob_control_acknowledged_exactly_once', 'rob_control_retry', 'rob_no_progress_means_no_change',
+                     'rob_no_progress_stays',
+                     # liveness (coq/mem/RobLive.v): fair round, ranking function, drain within rank(start) rounds
+                     'rob_round_decreases', 'rob_liveness', 'rob_drain_serves']
 
 
 def payload(addr, n):
@@ -189,6 +195,15 @@ def main(argv):
         return rep.finish()
     for name, axioms in thms:
         rep.obligation('theorem ' + name + (' [axioms: %s]' % ', '.join(axioms) if axioms else ' [closed under the global context]'), True)
+    # the theorems the property rests on must all be there (a statement that was removed is as bad as one that broke)
+    have = {name for name, _ in thms}
+    missing = [t for t in REQUIRED_THEOREMS if t not in have]
+    rep.obligation('all %d required theorems present (safety, control protocol, sleep safety, liveness with ranking function)'
+                   % len(REQUIRED_THEOREMS), not missing)
+    if missing:
+        rep.violation({'broken': 'props/C15.v no longer states: ' + ', '.join(missing)}, nofail=True,
+                      text='required theorem(s) missing: ' + ', '.join(missing))
+        return rep.finish()
 
     # ---- run the implementation
     cases = []
